@@ -47,7 +47,10 @@ def pick_chunkings(rng, H, W, n, exhaustive):
     if exhaustive or n >= len(allc):
         sel = allc
     else:
-        must = [([1] * H, [1] * W), ([H], [W]), ([1] * H, [W]), ([H], [1] * W)]
+        # always: 1-cell chunks, the single block, full-width row strips and full-height column strips (1-cell and
+        # two-part): "one chunk along this axis" shortcuts must look at BOTH axes
+        must = [([1] * H, [1] * W), ([H], [W]), ([1] * H, [W]), ([H], [1] * W),
+                ([H], [W // 2, W - W // 2]), ([H // 2, H - H // 2], [W])]
         sel = must + rng.sample(allc, n - len(must))
     out = []
     for r, c in sel:
